@@ -57,7 +57,10 @@ def scenario_source(kind, name):
         entries = name.get("entries", 2)
         sched = {}
         for k in range(entries):
-            ags = copy.deepcopy(scripted if k % 2 == 0 else scripted[:-1])
+            referenced = {c.get("options", {}).get("agent_name") for a in cfg["agents"] if isinstance(a, dict)
+                          for c in (a.get("reward_function") or {}).get("reward_components", []) if c.get("type") == "shared-reward"}
+            droppable = [a for a in scripted if a.get("ref") not in referenced]
+            ags = copy.deepcopy(scripted if (k % 2 == 0 or not droppable) else [a for a in scripted if a is not droppable[-1]])
             body = yaml.safe_dump({"scripted": ags}, sort_keys=False).replace("scripted:", "scripted: &scripted", 1)
             with open(os.path.join(d, f"overlay_{k}.yaml"), "w") as f:
                 f.write(body)
